@@ -64,6 +64,9 @@ def make_matrix(spec):
     rs = np.random.RandomState(spec["seed"])
     T, C = spec["T"], spec["C"]
     d = rs.uniform(-20, 20, size=(T, C)).astype(np.float32)
+    # stored entries of tiny magnitude are still stored entries (log-posteriors of confident frames are ~ -1e-9)
+    tiny = rs.uniform(size=(T, C)) < 0.15
+    d[tiny] = rs.choice(np.asarray([1e-9, -1e-9, 1e-12, -3e-8, 1e-30, -1e-38], dtype=np.float32), size=int(tiny.sum()))
     d[d == 0] = 0.5
     mask = rs.uniform(size=(T, C)) < spec["density"]
     d = d * mask
